@@ -207,6 +207,32 @@ func run(c *h.Ctx, cs Case) {
 		c.Fail("C17/write-error/"+cs.Format, "writing an honest container failed: %v", err)
 		return
 	}
+	// the bytes handed back belong to the caller: writing the SAME Writer again (every format, both variants),
+	// and another Writer, must neither disturb them nor produce something else for the same set
+	keep := append([]byte{}, out...)
+	for _, f2 := range ctr.Formats {
+		for _, st := range []bool{false, true} {
+			again, err2 := write(w, f2, st)
+			if err2 != nil {
+				c.Fail("C17/write-error/"+f2, "writing the same Writer again failed: %v", err2)
+				return
+			}
+			if corr == nil && f2 == cs.Format && st != cs.WStream {
+				if r2, e2 := read(again, f2, !st); e2 != nil || len(r2) > len(sealed) {
+					c.Fail("C17/honest-rejected/rewrite/"+f2, "the second output of the same Writer (%s) does not read back: %v", f2, e2)
+					return
+				}
+			}
+		}
+	}
+	other := container.NewWriter()
+	other.AddSealed(ctr.RefCID([]byte("x")), []byte("not a token, never read"))
+	_, _ = other.ToCbor()
+	_, _ = other.ToCar()
+	if !bytes.Equal(out, keep) {
+		c.Fail("C17/output-changed-by-later-write/"+cs.Format, "the bytes returned by the %s writer (stream=%v) changed when the Writer (or another one) was written again", cs.Format, cs.WStream)
+		return
+	}
 	isB64 := cs.Format == "carb64" || cs.Format == "cborb64"
 	isCar := cs.Format == "car" || cs.Format == "carb64"
 	// byte-level corruptions of the written container
